@@ -38,6 +38,8 @@ HOSTILE = [
     '\\begin{x}', '\\textbf{x}', '\\newline', '\\item', '\\verb|x|', '~', 'a\\b', '\\a', ']', '|',
     '100%', '{a', 'a}', '\\^', '^^M', '\\[', '\\(', '$#{}&_%^\\', '|!"\'=+#$%&()',
     '|!"\'=+#$%&()*', ALLPUNCT, ALLPUNCT + string.digits, 'é{', '%7B', 'a b', '\\%', '\\#',
+    # percent-encoded URLs that also carry raw specials (an escaper must not trust "already encoded")
+    'a%20b{', 'a%20b}', 'a%20b\\end{document}', '%41$', 'x%7Bz^', 'a%20b\\', 'p%25{q}',
     string.punctuation + string.digits, '}\\end{itemize}', '\\\\{', '\\}{', '_}', 'a\\', '{\\', '\\textbackslash', '$}', '#}', '%{',
 ]
 
